@@ -424,6 +424,8 @@ def _selector(ctx, pe, fn, rid):
                     if isinstance(cmp_, ast.Compare) and {x.id for x in ast.walk(cmp_) if isinstance(x, ast.Name)} >= {gen.target.id, dparam}:
                         found = (n, gen, c)
     if found is None:
+        if _bisect_selector(ctx, pe, fn, rid, dparam):
+            return
         raise AnalysisError(f"{rid}: filter of dated keys against `{dparam}` not found in {fn.name}")
     comp, gen, cond = found
     kv = gen.target.id
@@ -467,6 +469,48 @@ def _selector(ctx, pe, fn, rid):
         ctx.ob(rid, ok=good, distinct=txt)
         if not good:
             ctx.violation(rid, f"{fn.name}|pick|{txt}", pe.loc(p), f"`{txt}` does not pick the latest of the kept dated entries")
+
+
+def _bisect_selector(ctx, pe, fn, rid, dparam):
+    """the binary-search spelling: `pos = bisect_right(sorted_dates, date) - 1; entry = raw[sorted_dates[pos]]`.
+    Correct iff it is bisect_right (an entry dated on the day counts), the list is sorted, and the use of
+    `pos` is dominated by a test excluding pos < 0 (no entry on or before the date -> nothing selected)."""
+    from staticlib.guards import Dominance, eval_sized
+
+    la = local_assigns(fn)
+    calls = [n for n in walk_own(fn) if isinstance(n, ast.Call) and ast.unparse(n.func).split(".")[-1] in ("bisect_right", "bisect", "bisect_left", "searchsorted")
+             and any(isinstance(a, ast.Name) and a.id == dparam for a in [*n.args, *[k.value for k in n.keywords]])]
+    if len(calls) != 1:
+        return False
+    call = calls[0]
+    fname = ast.unparse(call.func).split(".")[-1]
+    right = fname in ("bisect_right", "bisect") or (fname == "searchsorted" and any(k.arg == "side" and isinstance(k.value, ast.Constant) and k.value.value == "right" for k in call.keywords))
+    ctx.ob(rid, ok=right, distinct="filter")
+    if not right:
+        ctx.violation(rid, f"{fn.name}|filter", pe.loc(call), f"`{ast.unparse(call)}` - 1 skips an entry dated exactly on the date (latest entry on or before the date expected): use the right-hand insertion point")
+    lst = call.args[0] if call.args else None
+    srt = isinstance(lst, ast.Name) and isinstance(la.get(lst.id), ast.Call) and ast.unparse(la[lst.id].func) == "sorted"
+    # the name holding `call - 1`
+    pos = None
+    for name, val in la.items():
+        if isinstance(val, ast.BinOp) and isinstance(val.op, ast.Sub) and val.left is call and isinstance(val.right, ast.Constant) and val.right.value == 1:
+            pos = name
+    if pos is None or not srt:
+        raise AnalysisError(f"{rid}: binary-search selection in {fn.name} is not `pos = bisect(sorted(...), {dparam}) - 1`; needs a re-read")
+    uses = [n for n in walk_own(fn) if isinstance(n, ast.Subscript) and isinstance(n.slice, ast.Name) and n.slice.id == pos]
+    if not uses:
+        raise AnalysisError(f"{rid}: {fn.name} never indexes with `{pos}`")
+    dom = Dominance(fn)
+    for u in uses:
+        feasible = True
+        for t, pol in dom.of(u):
+            v = eval_sized(t, {pos: -1})
+            if v is not None and v != pol:
+                feasible = False
+        ctx.ob(rid, ok=not feasible, distinct=ast.unparse(u))
+        if feasible:
+            ctx.violation(rid, f"{fn.name}|pick|{ast.unparse(u)}", pe.loc(u), f"`{ast.unparse(u)}` is reached with {pos} == -1 when every entry is dated after the date: index -1 silently selects the LATEST entry instead of none (a spec / value that is not in force yet is applied)")
+    return True
 
 
 # ====================================================================== Y
